@@ -57,4 +57,12 @@ pub fn gen_case(r: &mut Rng, out: &mut String) {
         writeln!(out, "tserde_visit {} t5 {}", kind, hex(&bytes)).unwrap();
         writeln!(out, "tdump t5").unwrap();
     }
+    // --- the payload of the OTHER type: a 32-bit stream is not a treemap payload (its cookie + container count read as
+    // the partition count); the visitor answers exactly like deserialize_from on these bytes
+    if r.chance(1, 3) {
+        let g32 = super::stream::gen_stream(r, true);
+        writeln!(out, "note 32-bit stream handed to the treemap visitor").unwrap();
+        writeln!(out, "tserde_visit {} t5 {}", *r.pick(&KINDS), hex(&g32.bytes)).unwrap();
+        writeln!(out, "tdump t5").unwrap();
+    }
 }
